@@ -39,9 +39,10 @@ import Driver.PuzMagnets
 import Driver.PuzNurimaze
 import Driver.PuzFirefly
 import Driver.PuzSlalom
+import Driver.PuzNanro
 open Cspuz Cspuz.Drv
 
-def handlers : List (Sexp → Option Sexp) := [handleC13, handleGraph, handleCore, handleC18, handleC14, handleC15, handleC16, handleC12, handleC19, handleC20, handleC03, handlePuzSudoku, handlePuzStarBattle, handlePuzPutteria, handlePuzNorinori, handlePuzAkari, handlePuzAquarium, handlePuzBuilding, handlePuzDoppelblock, handlePuzSlitherlink, handlePuzSimpleloop, handlePuzMasyu, handlePuzGeradeweg, handlePuzYajilin, handlePuzCreek, handlePuzGokigen, handlePuzNurimisaki, handlePuzLits, handlePuzHeyawake, handlePuzView, handlePuzNurikabe, handlePuzCompass, handlePuzFillomino, handlePuzFivecells, handlePuzYinyang, handlePuzCastleWall, handlePuzShakashaka, handlePuzMagnets, handlePuzNurimaze, handlePuzFirefly, handlePuzSlalom]
+def handlers : List (Sexp → Option Sexp) := [handleC13, handleGraph, handleCore, handleC18, handleC14, handleC15, handleC16, handleC12, handleC19, handleC20, handleC03, handlePuzSudoku, handlePuzStarBattle, handlePuzPutteria, handlePuzNorinori, handlePuzAkari, handlePuzAquarium, handlePuzBuilding, handlePuzDoppelblock, handlePuzSlitherlink, handlePuzSimpleloop, handlePuzMasyu, handlePuzGeradeweg, handlePuzYajilin, handlePuzCreek, handlePuzGokigen, handlePuzNurimisaki, handlePuzLits, handlePuzHeyawake, handlePuzView, handlePuzNurikabe, handlePuzCompass, handlePuzFillomino, handlePuzFivecells, handlePuzYinyang, handlePuzCastleWall, handlePuzShakashaka, handlePuzMagnets, handlePuzNurimaze, handlePuzFirefly, handlePuzSlalom, handlePuzNanro]
 
 def handle (s : Sexp) : Sexp :=
   match s with
